@@ -90,10 +90,7 @@ func (ks *Kafka) SendEvent(ctx *fiber.Ctx, meta EventMeta) {
 		}
 
 		// Events aren't send in correct order
-		for _, obj := range dObj.Objects {
-			if obj.Key == nil || meta.deleteFailed(obj) {
-				continue
-			}
+		for _, obj := range meta.deletedEntries(dObj.Objects) {
 			key := *obj.Key
 			schema := createEventSchema(ctx, meta, ConfigurationIdWebhook)
 			schema.Records[0].S3.Object.Key = key
